@@ -21,14 +21,22 @@ import (
 	"strings"
 	"testing"
 
+	fr377 "github.com/consensys/gnark-crypto/ecc/bls12-377/fr"
+	mimc377 "github.com/consensys/gnark-crypto/ecc/bls12-377/fr/mimc"
 	fr381 "github.com/consensys/gnark-crypto/ecc/bls12-381/fr"
 	mimc381 "github.com/consensys/gnark-crypto/ecc/bls12-381/fr/mimc"
+	fr315 "github.com/consensys/gnark-crypto/ecc/bls24-315/fr"
+	mimc315 "github.com/consensys/gnark-crypto/ecc/bls24-315/fr/mimc"
+	fr317 "github.com/consensys/gnark-crypto/ecc/bls24-317/fr"
+	mimc317 "github.com/consensys/gnark-crypto/ecc/bls24-317/fr/mimc"
 	frbn254 "github.com/consensys/gnark-crypto/ecc/bn254/fr"
 	"github.com/consensys/gnark-crypto/ecc/bn254/fr/mimc"
 	fr633 "github.com/consensys/gnark-crypto/ecc/bw6-633/fr"
 	mimc633 "github.com/consensys/gnark-crypto/ecc/bw6-633/fr/mimc"
 	fr761 "github.com/consensys/gnark-crypto/ecc/bw6-761/fr"
 	mimc761 "github.com/consensys/gnark-crypto/ecc/bw6-761/fr/mimc"
+	frgrumpkin "github.com/consensys/gnark-crypto/ecc/grumpkin/fr"
+	mimcgrumpkin "github.com/consensys/gnark-crypto/ecc/grumpkin/fr/mimc"
 	fiatshamir "github.com/consensys/gnark-crypto/fiat-shamir"
 
 	"verif/harness/internal/ref"
@@ -81,6 +89,10 @@ func mimcBn254() hash.Hash  { return mimc.NewMiMC() }
 func mimcBls381() hash.Hash { return mimc381.NewMiMC() }
 func mimcBw633() hash.Hash  { return mimc633.NewMiMC() }
 func mimcBw761() hash.Hash  { return mimc761.NewMiMC() }
+func mimcBls377() hash.Hash { return mimc377.NewMiMC() }
+func mimcBls315() hash.Hash { return mimc315.NewMiMC() }
+func mimcBls317() hash.Hash { return mimc317.NewMiMC() }
+func mimcGrump() hash.Hash  { return mimcgrumpkin.NewMiMC() }
 
 var mimcChunks = fieldChunks(mimcBn254)
 
@@ -96,6 +108,11 @@ var hashes = []hashKind{
 	{"mimc_bls12381", mimcBls381, fieldChunks(mimcBls381), 32, mimc381.BlockSize, fr381.Modulus()},
 	{"mimc_bw6633", mimcBw633, fieldChunks(mimcBw633), 40, mimc633.BlockSize, fr633.Modulus()},
 	{"mimc_bw6761", mimcBw761, fieldChunks(mimcBw761), 48, mimc761.BlockSize, fr761.Modulus()},
+	// every other curve's fr/mimc (generated from one template, but each package is its own code)
+	{"mimc_bls12377", mimcBls377, fieldChunks(mimcBls377), 32, mimc377.BlockSize, fr377.Modulus()},
+	{"mimc_bls24315", mimcBls315, fieldChunks(mimcBls315), 32, mimc315.BlockSize, fr315.Modulus()},
+	{"mimc_bls24317", mimcBls317, fieldChunks(mimcBls317), 32, mimc317.BlockSize, fr317.Modulus()},
+	{"mimc_grumpkin", mimcGrump, fieldChunks(mimcGrump), 32, mimcgrumpkin.BlockSize, frgrumpkin.Modulus()},
 }
 
 func hashByName(n string) hashKind {
@@ -168,8 +185,28 @@ type pair struct {
 	mod   *ref.Transcript
 	names []string
 	bound []bnd    // caller-owned buffers (whole backing buffers) whose window was handed to Bind
-	ret   [][]byte // slices returned by successful ComputeChallenge calls
+	ret   [][]byte // EVERY slice ever returned by a successful ComputeChallenge call (first computation or recomputation)
+	snap  [][]byte // what the caller last knew each of them to contain (full capacity), see checkHeld
+	retBy []string // the call that returned it
 	ev    int
+}
+
+// checkHeld: a challenge value the caller holds does not change behind its back. Every slice ever returned
+// is compared (over its full capacity) with the snapshot taken when it was returned, resp. after the
+// caller's own last modification of it. Called after every Bind and every ComputeChallenge.
+func (p *pair) checkHeld(after string) error {
+	for i, r := range p.ret {
+		if !bytes.Equal(r[:cap(r)], p.snap[i]) {
+			return fmt.Errorf("the slice returned earlier by %s (result #%d) changed behind the caller's back during %s: %x -> %x", p.retBy[i], i+1, after, p.snap[i][:len(r)], r)
+		}
+	}
+	return nil
+}
+
+func (p *pair) resnap() {
+	for i, r := range p.ret {
+		p.snap[i] = append(p.snap[i][:0], r[:cap(r)]...)
+	}
 }
 
 func newPair(h hashKind, names []string) *pair {
@@ -189,6 +226,9 @@ func (p *pair) bindBuf(name string, buf []byte, lo, hi int) error {
 	merr := p.mod.Bind(name, want)
 	lerr := p.lib.Bind(name, v)
 	p.bound = append(p.bound, bnd{buf, lo, hi})
+	if err := p.checkHeld(fmt.Sprintf("Bind(%q)", name)); err != nil {
+		return err
+	}
 	if !bytes.Equal(buf, before) {
 		return fmt.Errorf("Bind(%q, %x) modified the caller's buffer (the value or the bytes around it / its spare capacity): %x -> %x", name, want, before, buf)
 	}
@@ -232,6 +272,9 @@ func (p *pair) compute(name string) error {
 	case ref.ErrTranscriptOrder:
 		p.ev |= evComputeOrder
 	}
+	if err := p.checkHeld(fmt.Sprintf("ComputeChallenge(%q)", name)); err != nil {
+		return err
+	}
 	if (lerr != nil) != (merr != nil) {
 		return fmt.Errorf("ComputeChallenge(%q): library error = %v, specification = %v", name, lerr, merr)
 	}
@@ -242,6 +285,8 @@ func (p *pair) compute(name string) error {
 		return fmt.Errorf("ComputeChallenge(%q) = %x, specification says %x", name, got, want)
 	}
 	p.ret = append(p.ret, got)
+	p.snap = append(p.snap, append([]byte(nil), got[:cap(got)]...))
+	p.retBy = append(p.retBy, fmt.Sprintf("ComputeChallenge(%q)", name))
 	return nil
 }
 
@@ -290,6 +335,7 @@ func (p *pair) flipRet() {
 	for _, r := range p.ret {
 		flip(r, 0x5A)
 	}
+	p.resnap()
 	if len(p.ret) > 0 {
 		p.ev |= evMutation
 	}
@@ -299,6 +345,7 @@ func (p *pair) appendRet() {
 	for _, r := range p.ret {
 		appendTo(r, 0x3C)
 	}
+	p.resnap()
 	if len(p.ret) > 0 {
 		p.ev |= evMutation
 	}
